@@ -4,6 +4,7 @@ package tl
 
 import (
 	"fmt"
+	"math/big"
 	"os"
 	"path/filepath"
 	"strings"
@@ -21,7 +22,9 @@ type Asset struct {
 	LoopMS int64
 	Video  *project.RepTruth
 	Audio  *project.RepTruth
-	Text   *project.RepTruth // stpp (bundled testpic_2s only)
+	Text   *project.RepTruth // stpp text profile (bundled testpic_2s only)
+	Texts  []*project.RepTruth // all stpp representations (text and image profile)
+	TextMPD string
 	Thumbs *ThumbTruth
 	Gen    bool
 }
@@ -104,6 +107,13 @@ func Setup(dir string, thorough bool) (*Env, error) {
 				return nil, err
 			}
 			a.Text = tx
+			a.Texts = append(a.Texts, tx)
+			a.TextMPD = "Manifest_imsc1.mpd"
+			if ti, err := project.LoadVodRep(ad, "imsc1_img_en", "text", "imsc1_img_en/init.mp4", "imsc1_img_en/$Number$.m4s", 1); err == nil {
+				a.Texts = append(a.Texts, ti)
+			} else {
+				return nil, err
+			}
 			th := &ThumbTruth{ID: "thumbs", DurS: 2, Pat: "thumbs/$Number$.jpg"}
 			for nr := 1; ; nr++ {
 				d, err := os.ReadFile(filepath.Join(ad, "thumbs", fmt.Sprintf("%d.jpg", nr)))
@@ -116,6 +126,58 @@ func Setup(dir string, thorough bool) (*Env, error) {
 			a.Thumbs = th
 		}
 		env.Assets = append(env.Assets, a)
+	}
+	// bbb_hevc_ac3_8s: HEVC + AC-3 (1536-sample frames), file names video_<n>.m4s / audio_<n>.m4s, rep ids "1" / "2"
+	{
+		ad := filepath.Join(srv.BundledAssets(), "bbb_hevc_ac3_8s")
+		v, err := project.LoadVodRep(ad, "1", "video", "video_init.mp4", "video_$Number$.m4s", 1)
+		if err != nil {
+			return nil, err
+		}
+		au, err := project.LoadVodRep(ad, "2", "audio", "audio_init.mp4", "audio_$Number$.m4s", 1)
+		if err != nil {
+			return nil, err
+		}
+		env.Assets = append(env.Assets, &Asset{Name: "bbb_hevc_ac3_8s", MPD: "manifest.mpd", LoopMS: v.L * 1000 / v.TS, Video: v, Audio: au})
+	}
+	// testpic_alt_seg_dur_stl: $Time$-addressed VoD with alternating 4 s / 8 s segments
+	{
+		ad := filepath.Join(srv.BundledAssets(), "testpic_alt_seg_dur_stl")
+		md, err := os.ReadFile(filepath.Join(ad, "Manifest.mpd"))
+		if err != nil {
+			return nil, err
+		}
+		m, err := project.ParseMPD(md)
+		if err != nil {
+			return nil, err
+		}
+		times := func(ct string) []int64 {
+			var out []int64
+			as := m.FindAS(0, ct, "")
+			if as == nil || as.SegmentTemplate == nil || as.SegmentTemplate.Timeline == nil {
+				return nil
+			}
+			var t int64
+			for _, s := range as.SegmentTemplate.Timeline.S {
+				if s.T != nil {
+					t = int64(*s.T)
+				}
+				for x := 0; x <= s.R; x++ {
+					out = append(out, t)
+					t += int64(s.D)
+				}
+			}
+			return out
+		}
+		v, err := project.LoadVodRepTime(ad, "V300", "video", "V300/init.mp4", "V300/$Time$.m4s", times("video"))
+		if err != nil {
+			return nil, err
+		}
+		au, err := project.LoadVodRepTime(ad, "A48", "audio", "A48/init.mp4", "A48/$Time$.m4s", times("audio"))
+		if err != nil {
+			return nil, err
+		}
+		env.Assets = append(env.Assets, &Asset{Name: "testpic_alt_seg_dur_stl", MPD: "Manifest.mpd", LoopMS: v.L * 1000 / v.TS, Video: v, Audio: au})
 	}
 	s, err := srv.New(dir, nil)
 	if err != nil {
@@ -230,7 +292,7 @@ func Header(w *tr.W, sc int, a *Asset, rt *project.RepTruth, c Cfg, extra tr.E) 
 	}
 	e := tr.E{"ev": "hdr", "sc": sc, "asset": a.Name, "rep": rt.ID, "kind": rt.Kind, "N": rt.N, "dur": rt.Dur, "vod0": rt.Vod0,
 		"TS": rt.TS, "loopMS": loopMS, "tsbd": c.EffTSBD(), "ato": c.AtoMS, "snr": c.EffSNR(), "ast": c.AST, "mode": c.Mode,
-		"L": rt.L, "keepdigs": false, "stop": -1, "cfg": strings.Join(c.Parts(), "/")}
+		"L": rt.L, "keepdigs": false, "stop": -1, "slack": 0, "cfg": strings.Join(c.Parts(), "/")}
 	for k, v := range extra {
 		e[k] = v
 	}
@@ -274,9 +336,23 @@ func HeaderE(sc int, a *Asset, rt *project.RepTruth, c Cfg, extra tr.E) tr.E {
 	}
 	e := tr.E{"ev": "hdr", "sc": sc, "asset": a.Name, "rep": rt.ID, "kind": rt.Kind, "N": rt.N, "dur": rt.Dur, "vod0": rt.Vod0,
 		"TS": rt.TS, "loopMS": loopMS, "tsbd": c.EffTSBD(), "ato": c.AtoMS, "snr": c.EffSNR(), "ast": c.AST, "mode": c.Mode,
-		"L": rt.L, "keepdigs": false, "stop": -1, "cfg": strings.Join(c.Parts(), "/")}
+		"L": rt.L, "keepdigs": false, "stop": -1, "slack": 0, "cfg": strings.Join(c.Parts(), "/")}
 	for k, v := range extra {
 		e[k] = v
 	}
 	return e
+}
+
+// AudioStartTicks is the audio decode time a client computes for segment n of an audio representation that
+// follows the video grid: the first audio frame boundary at or after the video segment start (big-int exact).
+// Used only to construct $Time$ request URLs (an input); C03 judges the value itself.
+func AudioStartTicks(video, audio *project.RepTruth, n int64) int64 {
+	sv := new(big.Int).SetInt64(StartTicks(video, n))
+	num := new(big.Int).Mul(sv, big.NewInt(audio.TS))
+	den := new(big.Int).Mul(big.NewInt(video.TS), big.NewInt(audio.SampleDur))
+	q, r := new(big.Int).QuoRem(num, den, new(big.Int))
+	if r.Sign() != 0 {
+		q.Add(q, big.NewInt(1))
+	}
+	return q.Mul(q, big.NewInt(audio.SampleDur)).Int64()
 }
